@@ -9,7 +9,7 @@ use std::process::{Command, Stdio};
 use std::time::{Duration, Instant};
 
 use conserve::monitor::test::TestMonitor;
-use conserve::{Archive, BandId, BandSelectionPolicy, Exclude};
+use conserve::{BandId, BandSelectionPolicy, Exclude};
 use serde_json::{Value, json};
 
 use crate::cs::{self, Opts};
@@ -58,11 +58,23 @@ pub fn child(args: &[String]) -> i32 {
     let budget: usize = args[6].parse().unwrap();
     let ic = Icept::with_budget(&arch, Mode::Log, 0, budget);
     let mut report = serde_json::Map::new();
+    // `hold <relpath> <action> <seed>`: the archive given is still undamaged; one Archive handle
+    // is opened, used for a listing, a quick validation and a restore, and kept; then the
+    // damage happens; then everything below runs through that same handle
+    if args.get(7).map(|a| a == "hold").unwrap_or(false) {
+        cs::hold_handle(true);
+        op("before the damage: list, validate, restore through the handle that is kept");
+        let _ = cs::list(ic.transport(1), None, "/", &[]);
+        let _ = cs::validate(ic.transport(1), true);
+        let _ = cs::restore(ic.transport(1), None, &out.join("pre"), None, &[], false);
+        let d = Damage { relpath: args[8].clone(), action: Action::parse(&args[9]).expect("action") };
+        damage::apply(&arch, &d, args[10].parse().unwrap());
+    }
     // 1. versions
     op("versions");
     let t = ic.transport(1);
     let versions: Result<Vec<u32>, String> = cs::block_on(async {
-        let archive = Archive::open(t).await.map_err(cs::errstr)?;
+        let archive = cs::open_archive(t).await?;
         let ids = archive.list_band_ids().await.map_err(cs::errstr)?;
         let mut v = Vec::new();
         for id in ids {
@@ -137,6 +149,10 @@ pub struct ChildRun {
 }
 
 pub fn run_child(exe: &Path, wrapper: &[&str], arch: &Path, src: &Path, out: &Path, o: Opts, budget: usize, timeout: Duration) -> ChildRun {
+    run_child_with(exe, wrapper, arch, src, out, o, budget, timeout, &[])
+}
+
+pub fn run_child_with(exe: &Path, wrapper: &[&str], arch: &Path, src: &Path, out: &Path, o: Opts, budget: usize, timeout: Duration, extra: &[String]) -> ChildRun {
     let mut cmd = if wrapper.is_empty() {
         Command::new(exe)
     } else {
@@ -152,6 +168,7 @@ pub fn run_child(exe: &Path, wrapper: &[&str], arch: &Path, src: &Path, out: &Pa
         .arg(o.block.to_string())
         .arg(o.cap.to_string())
         .arg(budget.to_string())
+        .args(extra)
         .stdout(Stdio::piped())
         .stderr(Stdio::piped());
     let mut ch = cmd.spawn().expect("spawn child");
@@ -400,15 +417,25 @@ fn judge(run: &Run, s: &Subject, raw_pre: &fmt06::Raw, base_errors: &BTreeMap<u3
 }
 
 fn one_damage(run: &Run, s: &Subject, raw_pre: &fmt06::Raw, base_errors: &BTreeMap<u32, Vec<String>>, exe: &Path, wrapper: &[&str], budget: usize, case: u64, di: usize, d: &Damage, counter: &str) {
-    let arch = damage::damaged_copy(s, d, run.seed);
+    // "held": the damage happens while a program holds an open Archive handle that it has
+    // already used; everything afterwards goes through that handle (see the child)
+    let held = counter == "damaged_archives_run_with_a_held_handle";
+    let arch = if held {
+        let p = s.world.sc.fresh("dmg");
+        fmt06::copy_dir(&s.world.arch, &p);
+        p
+    } else {
+        damage::damaged_copy(s, d, run.seed)
+    };
     let out = s.world.sc.fresh("out");
     std::fs::create_dir_all(&out).unwrap();
-    let cr = run_child(exe, wrapper, &arch, &s.world.src, &out, s.opts, budget, Duration::from_secs(if wrapper.is_empty() { 120 } else { 600 }));
+    let extra: Vec<String> = if held { vec!["hold".into(), d.relpath.clone(), d.action.name(), run.seed.to_string()] } else { vec![] };
+    let cr = run_child_with(exe, wrapper, &arch, &s.world.src, &out, s.opts, budget * if held { 2 } else { 1 }, Duration::from_secs(if wrapper.is_empty() { 120 } else { 600 }), &extra);
     run.eval();
     run.count(counter, 1);
     run.observe("damage_classes", d.class());
-    run.nontrivial(fnv(format!("{case}|{}", d.desc()).as_bytes()));
-    let replay = json!({"case": case, "damage_index": di, "damage": d.desc(), "history": s.desc});
+    run.nontrivial(fnv(format!("{case}|{}|{held}", d.desc()).as_bytes()));
+    let replay = json!({"case": case, "damage_index": di, "damage": d.desc(), "held_handle": held, "history": s.desc});
     judge(run, s, raw_pre, base_errors, d, &arch, &out, &cr, &replay);
     crate::scratch::rm(&arch);
     crate::scratch::rm(&out);
@@ -483,10 +510,19 @@ pub fn run(tier: Tier, replay: Option<Value>) -> i32 {
                         run.count("damages_skipped_by_time_budget", 1);
                         continue;
                     }
-                    if let Err(m) = crate::report::guard(|| one_damage(&run, &s, &raw_pre, &base_errors, &exe, &[], budget, case, i, &damages[i], "damaged_archives_run")) {
-                        run.inconclusive(format!("harness error: {m}"));
-                    } else if case == SCALE_CASE {
-                        run.count("damages_on_a_band_with_two_hunk_subdirectories", 1);
+                    let replay_held = run.replay.as_ref().and_then(|r| r.get("held_handle")).and_then(|h| h.as_bool()).unwrap_or(false);
+                    if !replay_held {
+                        if let Err(m) = crate::report::guard(|| one_damage(&run, &s, &raw_pre, &base_errors, &exe, &[], budget, case, i, &damages[i], "damaged_archives_run")) {
+                            run.inconclusive(format!("harness error: {m}"));
+                        } else if case == SCALE_CASE {
+                            run.count("damages_on_a_band_with_two_hunk_subdirectories", 1);
+                        }
+                    }
+                    // every fourth damage also with a held handle (not for the scale subject)
+                    if case != SCALE_CASE && (replay_held || (run.replay.is_none() && i % 4 == 1)) {
+                        if let Err(m) = crate::report::guard(|| one_damage(&run, &s, &raw_pre, &base_errors, &exe, &[], budget, case, i, &damages[i], "damaged_archives_run_with_a_held_handle")) {
+                            run.inconclusive(format!("harness error: {m}"));
+                        }
                     }
                 });
             }
@@ -520,10 +556,10 @@ pub fn run(tier: Tier, replay: Option<Value>) -> i32 {
         }
     }
     let needs: &[(&str, u64)] = if replay.is_some() { &[] } else {
-        &[("damaged_archives_run", 200), ("children_completed", 150), ("untouched_entries_compared", 1000), ("touched_entries_judged", 50), ("followup_backups_judged", 50), ("damages_on_a_band_with_two_hunk_subdirectories", 5)]
+        &[("damaged_archives_run", 200), ("children_completed", 150), ("untouched_entries_compared", 1000), ("touched_entries_judged", 50), ("followup_backups_judged", 50), ("damages_on_a_band_with_two_hunk_subdirectories", 5), ("damaged_archives_run_with_a_held_handle", 50)]
     };
     run.finish(
-        "archives with 2-4 bands (complete, interrupted in the middle, interrupted newest) sharing blocks; EVERY file except CONSERVE x {delete (not BANDTAIL), truncate 0, truncate half, seeded garbage} + seeded bit flips in every file + seeded single-bit flips in the uncompressed JSON of every hunk, head and tail that keep it decodable (the damage no checksum catches); plus one archive of 10 040 files with one entry per hunk (hunks in i/00000 and i/00001) with hunks 5, 9999, 10000, 10030 deleted / emptied, hunk 7 replaced by garbage, hunk 10001 halved, the last hunk deleted; each damaged archive is given to a child process that lists versions (band info, sizes), lists and restores every band, validates fully and quickly, backs up the source again and restores that; the parent requires: normal termination (panic, abort, signal = violation; more than 1000x the fault-free number of storage operations = violation; 120 s wall clock = inconclusive); every version other than one whose own BANDHEAD was damaged still opens; each entry whose hunk, that hunk's BANDHEAD and blocks are untouched is restored exactly; entries whose hunk or block is now missing or undecodable are restored exactly or the restore reports an error (the vanished last hunk of an incomplete band excepted: indistinguishable from an earlier interruption); after delete / truncate-to-0 the new backup completes and restores the source exactly. Auxiliary sanitizer pass: garbage / bit-flip / half-truncated cases of two archives (8 in quick, 100 per archive in thorough) are replayed with the child under valgrind memcheck (--error-exitcode=99); a report is judged like a crash.",
+        "archives with 2-4 bands (complete, interrupted in the middle, interrupted newest) sharing blocks; EVERY file except CONSERVE x {delete (not BANDTAIL), truncate 0, truncate half, seeded garbage} + seeded bit flips in every file + seeded single-bit flips in the uncompressed JSON of every hunk, head and tail that keep it decodable (the damage no checksum catches); plus one archive of 10 040 files with one entry per hunk (hunks in i/00000 and i/00001) with hunks 5, 9999, 10000, 10030 deleted / emptied, hunk 7 replaced by garbage, hunk 10001 halved, the last hunk deleted; every fourth damage is also applied while the child process holds an Archive handle it has already used (for a listing, a quick validation and a restore) and keeps using for everything that follows, as a long-running program built on the library would; each damaged archive is given to a child process that lists versions (band info, sizes), lists and restores every band, validates fully and quickly, backs up the source again and restores that; the parent requires: normal termination (panic, abort, signal = violation; more than 1000x the fault-free number of storage operations = violation; 120 s wall clock = inconclusive); every version other than one whose own BANDHEAD was damaged still opens; each entry whose hunk, that hunk's BANDHEAD and blocks are untouched is restored exactly; entries whose hunk or block is now missing or undecodable are restored exactly or the restore reports an error (the vanished last hunk of an incomplete band excepted: indistinguishable from an earlier interruption); after delete / truncate-to-0 the new backup completes and restores the source exactly. Auxiliary sanitizer pass: garbage / bit-flip / half-truncated cases of two archives (8 in quick, 100 per archive in thorough) are replayed with the child under valgrind memcheck (--error-exitcode=99); a report is judged like a crash.",
         &["hunks carry no checksum: a hunk that still decodes after damage imposes no content requirement", "the child and the parent are the same binary; the interceptor's operation count is the progress measure"],
         Some(true),
         needs,
